@@ -263,7 +263,11 @@ func Analyze(tr *Trace) *Analyzer {
 				if op.K == "urep" && op.Answer == "seid0" && len(st.Reports) > 0 {
 					// a SEID-0 answer ends "the session whose CP-SEID and peer match": with several live sessions of
 					// one peer under one CP-SEID (stale handles can produce that) either may go
-					if twins := a.twins(s); len(twins) > 1 {
+					if s.taken {
+						// after a take-over, which peer "matches" a SEID-0 answer is not fixed by the statement (the
+						// generator never asks for it; a stale handle can): the outcome is read from the snapshot
+						seid0Amb = []*mSess{s}
+					} else if twins := a.twins(s); len(twins) > 1 {
 						for _, s2 := range twins {
 							targets[s2.up] = true
 						}
